@@ -4,6 +4,7 @@ import (
 	"fmt"
 	"reflect"
 	"runtime"
+	"sort"
 	"unsafe"
 
 	"github.com/cloudwego/frugal/zverif/explore"
@@ -90,6 +91,14 @@ func c06Alphabet() []c06Msg {
 	nc := mk(fd(1, D, sc(ref.KString)), fd(2, D, sc(ref.KBinary)), fd(3, D, sc(ref.KString)), fd(4, O, ptrTo(sc(ref.KI32))))
 	nc.Fields[0].NoCopy, nc.Fields[1].NoCopy = true, true
 	out = append(out, c06Msg{"nocopy+plain", nc, &ref.Val{K: ref.KStruct, F: []*ref.Val{ref.Str(rep(9)), ref.Bin([]byte(rep(300))), ref.Str(rep(11)), ref.Int(ref.KI32, 5)}}})
+	// empty containers: every decoded object owns its own (empty) maps and slices
+	em := mk(fd(1, D, universe.MapOf(sc(ref.KString), sc(ref.KI32))), fd(2, D, universe.MapOf(sc(ref.KI32), universe.StPtr(in))), fd(3, D, universe.ListOf(sc(ref.KI32))),
+		fd(4, D, sc(ref.KBinary)), fd(5, D, universe.MapOf(sc(ref.KString), sc(ref.KI32))), fd(6, D, universe.SetOf(sc(ref.KString))))
+	emv := &ref.Val{K: ref.KStruct, F: []*ref.Val{{K: ref.KMap}, {K: ref.KMap}, {K: ref.KList}, ref.Bin(nil), {K: ref.KMap}, {K: ref.KSet}}}
+	eo := mk(fd(1, D, universe.ListOf(universe.StPtr(em))), fd(2, D, universe.StVal(em)), fd(3, D, universe.MapOf(sc(ref.KI32), universe.MapOf(sc(ref.KString), sc(ref.KI32)))))
+	eov := &ref.Val{K: ref.KStruct, F: []*ref.Val{ref.List(ref.KList, emv, emv), emv,
+		{K: ref.KMap, M: [][2]*ref.Val{{ref.Int(ref.KI32, 1), {K: ref.KMap}}, {ref.Int(ref.KI32, 2), {K: ref.KMap}}}}}}
+	out = append(out, c06Msg{"empty-containers", eo, eov})
 	// one decode that rolls the sub-allocator's block over many times with mixed alignments
 	many := mk(fd(1, D, universe.ListOf(sc(ref.KString))), fd(2, D, universe.ListOf(universe.ListOf(sc(ref.KI16)))), fd(3, D, universe.MapOf(sc(ref.KString), universe.ListOf(sc(ref.KI64)))))
 	mv := &ref.Val{K: ref.KStruct, F: []*ref.Val{{K: ref.KList}, {K: ref.KList}, {K: ref.KMap}}}
@@ -154,6 +163,20 @@ func init() {
 	})
 }
 
+var c06EncCache = map[string][2]string{}
+
+// c06Encoded returns the encoding of a message of the alphabet and the canonical form of the value the
+// reference decoder reads from it (both constant per message).
+func c06Encoded(m c06Msg) ([]byte, string) {
+	e, ok := c06EncCache[m.name]
+	if !ok {
+		enc := ref.Encode(m.s, m.v)
+		e = [2]string{string(enc), ref.Decode(m.s, enc, nil, ref.DecOpts{}).V.Canon()}
+		c06EncCache[m.name] = e
+	}
+	return []byte(e[0]), e[1]
+}
+
 type c06Live struct {
 	msg    c06Msg
 	dst    reflect.Value
@@ -192,7 +215,7 @@ func c06Body(c *explore.C, maxLen int) {
 	var hist []string
 	for i := range seq {
 		m := al[seq[i]]
-		enc := ref.Encode(m.s, m.v)
+		enc, expCanon := c06Encoded(m)
 		var in []byte
 		if i > 0 && acts[i-1] == 2 {
 			in = append(shared[:0], enc...) // the previous message's buffer is reused
@@ -224,7 +247,7 @@ func c06Body(c *explore.C, maxLen int) {
 		lv := &c06Live{msg: m, dst: dst, input: in, nocopy: hasNocopy}
 		lv.snap = universe.ReadStruct(m.s, dst.Elem()).Canon()
 		reused := i > 0 && acts[i-1] == 5 && len(live) > 0 && live[len(live)-1].msg.s == m.s
-		if exp := ref.Decode(m.s, enc, nil, ref.DecOpts{}); lv.snap != exp.V.Canon() && !reused {
+		if lv.snap != expCanon && !reused {
 			c.Fail(fmt.Sprintf("decode %d (%s) yields a wrong value", i+1, m.name), cs("value-mismatch", nil))
 			return
 		}
@@ -303,7 +326,25 @@ func c06Check(live []*c06Live) (string, string) {
 			all = append(all, owned{e, oi})
 		}
 	}
-	// pairwise disjoint within and across objects (the top-level structs are caller memory, not included)
+	// pairwise disjoint within and across objects (the top-level structs are caller memory, not included).
+	// Sweep over the extents sorted by address; only when the sweep meets an overlap (a defect, or the
+	// expected aliasing of two nocopy views) is the full pairwise comparison run.
+	sorted := append([]owned(nil), all...)
+	sort.Slice(sorted, func(i, j int) bool { return sorted[i].addr < sorted[j].addr })
+	clean := true
+	var maxEnd uintptr
+	for i, e := range sorted {
+		if i > 0 && e.addr < maxEnd {
+			clean = false
+			break
+		}
+		if e.end() > maxEnd {
+			maxEnd = e.end()
+		}
+	}
+	if clean {
+		return "", ""
+	}
 	for i := range all {
 		for j := i + 1; j < len(all); j++ {
 			a, b := all[i], all[j]
